@@ -122,6 +122,30 @@ func systematic() []planT {
 	add("none", 0, with(func(p *pspec) { p.prov = "late.ctxw"; p.agg = "late.ctxw" }))
 	add("none", 0, with(func(p *pspec) { p.prov = "late.ctxw"; p.inst = 1; p.ammo = 1; p.shots = 1 }))
 
+	// instances that never finish on their own (slow:block, endless ammo): the run context is live until the engine
+	// reacts, so every component error - also one whose cause is a context.Canceled of the component's own (ek:cn) -
+	// must come out as the failure of the run
+	blk := func(f func(p *pspec)) pspec {
+		p := basePool()
+		p.ammo, p.shots, p.slow = -1, 50, "block"
+		f(&p)
+		return p
+	}
+	for _, ek := range []string{"cn", "dl", ""} {
+		for _, per := range []int{0, 1} {
+			add("none", 0, blk(func(p *pspec) { p.agg = "pre.err"; p.ek = ek; p.per = per }))
+			add("none", 0, blk(func(p *pspec) { p.agg = "mid1.err"; p.ek = ek; p.per = per }))
+		}
+		for _, f := range []string{"newgun@0", "warmup", "newgun@1", "bind@1", "sched@1", "newgun@2", "bind@2", "sched@2"} {
+			add("none", 0, blk(func(p *pspec) { p.fail = f; p.ek = ek }))
+		}
+		// the shared schedule runs out while one instance is still shooting: the instance start is cancelled,
+		// the run is not
+		add("none", 0, blk(func(p *pspec) { p.agg = "mid1.err"; p.ek = ek; p.per = 0; p.shots = 1 }))
+		add("none", 0, blk(func(p *pspec) { p.fail = "bind@2"; p.ek = ek; p.per = 0; p.shots = 1; p.inst = 3 }))
+	}
+	add("shot1", 0, blk(func(p *pspec) {}))
+
 	// external cancel at every phase, clean and with a failing component
 	for _, c := range []string{"pre", "warm", "bind", "shot1", "shot2", "drain", "after"} {
 		for _, per := range []int{0, 1} {
@@ -154,13 +178,56 @@ func systematic() []planT {
 	add("shot2", 0, with(func(p *pspec) { p.ammo = -1; p.shots = 50 }), with(func(p *pspec) { p.ammo = -1; p.shots = 50 }))
 	add("drain", 0, clean, with(func(p *pspec) { p.prov = "late.err" }))
 	add("pre", 0, clean, clean)
+
+	// three pools: the 1-slot result channel of Engine.Run takes one late result, the goroutine of the third pool
+	// must leave through the engine context (goroutine leak otherwise)
+	endless := with(func(p *pspec) { p.ammo = -1; p.shots = 1000 })
+	add("none", 0, with(func(p *pspec) { p.prov = "pre.err" }), endless, endless)
+	add("none", 0, clean, with(func(p *pspec) { p.agg = "late.err" }), clean)
+	add("none", 0, clean, clean, clean)
+	add("shot1@p2", 0, endless, endless, endless)
+
+	// more instances than the run-result channel has slots (64): senders block until the await loop has read
+	add("none", 1, with(func(p *pspec) { p.inst = 70; p.ammo = 150; p.shots = 3 }))
+	add("none", 1, with(func(p *pspec) { p.inst = 70; p.ammo = 150; p.shots = 3; p.prov = "late.err" }))
+	add("shot2", 1, with(func(p *pspec) { p.inst = 70; p.ammo = -1; p.shots = 50 }))
+	add("none", 1, with(func(p *pspec) { p.inst = 70; p.ammo = 300; p.shots = 3; p.fail = "bind@66" }))
+	return out
+}
+
+// exhaustiveSmall: thorough tier: the full cross product of one small pool's fault plan
+// (provider x aggregator x factory/bind/warm-up/shot fault x schedule sharing x error kind x cancel)
+func exhaustiveSmall() []planT {
+	var out []planT
+	for _, prov := range []string{"pre.err", "mid0.err", "end.err", "late.err", "end.nil", "late.nil", "late.ctx"} {
+		for _, agg := range []string{"pre.err", "mid1.err", "late.err", "late.nil"} {
+			for _, fail := range []string{"-", "newgun@0", "newgun@1", "newgun@2", "bind@1", "bind@2", "warmup", "sched@1", "sched@2", "panic@1"} {
+				for per := 0; per < 2; per++ {
+					if fail == "sched@1" && per == 0 {
+						continue // the shared-factory failure: systematic plans (expensive on a tree that hangs there)
+					}
+					for _, ek := range []string{"", "dl"} {
+						for _, c := range []string{"none", "shot1"} {
+							p := basePool()
+							p.inst, p.ammo, p.shots = 2, 2, 2
+							p.prov, p.agg, p.fail, p.per, p.ek = prov, agg, fail, per, ek
+							out = append(out, planT{cancel: c, pools: []pspec{p}})
+						}
+					}
+				}
+			}
+		}
+	}
 	return out
 }
 
 func randomPlan(r *rand.Rand) planT {
 	np := 1
-	if r.Intn(4) == 0 {
+	switch r.Intn(12) {
+	case 0, 1, 2:
 		np = 2
+	case 3:
+		np = 3
 	}
 	pl := planT{cancel: "none"}
 	for i := 0; i < np; i++ {
@@ -168,6 +235,9 @@ func randomPlan(r *rand.Rand) planT {
 		p.inst = r.Intn(4)
 		if r.Intn(8) == 0 {
 			p.inst = 4 + r.Intn(5)
+		}
+		if r.Intn(40) == 0 {
+			p.inst = 60 + r.Intn(20) // around the 64 slots of the run-result channel
 		}
 		p.ammo = r.Intn(8)
 		if r.Intn(6) == 0 {
@@ -239,9 +309,9 @@ func randomPlan(r *rand.Rand) planT {
 }
 
 func gen(r *rand.Rand, tier string) []string {
-	reps, few, nrand, randReps := 30, 2, 60, 6
+	reps, few, nrand, randReps := 24, 2, 60, 6
 	if tier == "thorough" {
-		reps, few, nrand, randReps = 500, 6, 1500, 12
+		reps, few, nrand, randReps = 400, 6, 1500, 12
 	}
 	var out []string
 	for _, pl := range systematic() {
@@ -257,6 +327,13 @@ func gen(r *rand.Rand, tier string) []string {
 		pl := randomPlan(r)
 		for k := 0; k < randReps; k++ {
 			out = append(out, line(pl.cancel, k, pl.pools...))
+		}
+	}
+	if tier == "thorough" {
+		for _, pl := range exhaustiveSmall() {
+			for k := 0; k < 6; k++ {
+				out = append(out, line(pl.cancel, k, pl.pools...))
+			}
 		}
 	}
 	return out
